@@ -82,7 +82,7 @@ theorem Inv_sSend {s : State} (hinv : Inv s) (call epoch : Nat) (m : Msg) (v : B
               have hsid := getSess_sid ht
               obtain ⟨t0, ht0, hcid⟩ := hinv.calls _ _ hd
               rw [ht] at ht0; cases ht0
-              have hadm' : admit v g d.src = true := by simpa using hadm
+              have hadm' : admitOk v g d.src = true := by simpa using hadm
               refine Inv_sessStep (s' := { setSess s (sendSess t d.isA ours other m) with
                   accepted := (t.sid, t.seqno, d.id, m, v, g) :: s.accepted })
                 (d' := d) (t := t) (t' := sendSess t d.isA ours other m)
@@ -101,7 +101,7 @@ theorem Inv_sSend {s : State} (hinv : Inv s) (call epoch : Nat) (m : Msg) (v : B
                 unfold Acc
                 rw [acceptedFor_iff]
                 obtain ⟨k1, k2⟩ := key_opposite hci.key hcid.key hisA
-                simp only [admit, Bool.and_eq_true, decide_eq_true_eq] at hadm'
+                simp only [admitOk, Bool.and_eq_true, decide_eq_true_eq] at hadm'
                 exact ⟨d.id, v, g, d, by rw [hs, ← hsid]; exact List.mem_cons_self, hadm'.1, fun h => hne h.symm,
                   hd, hadm'.2, hs.symm, k1, k2⟩
 
